@@ -411,8 +411,10 @@ class Check:
             "wall_s": round(wall, 2),
             "violations": len(self.violations),
         }
-        os.makedirs(os.path.join(VERIF, "evidence"), exist_ok=True)
-        with open(os.path.join(VERIF, "evidence", f"{self.pid}.json"), "w") as f:
+        # evaluations of deliberately changed trees (tools/seed_eval.sh) must not overwrite the evidence of /repo
+        evdir = os.environ.get("PYVC_EVIDENCE_DIR") or os.path.join(VERIF, "evidence")
+        os.makedirs(evdir, exist_ok=True)
+        with open(os.path.join(evdir, f"{self.pid}.json"), "w") as f:
             json.dump(ev, f, indent=1, default=str)
         for o, k in self.known_hits:
             print(f"KNOWN-FINDING: property={self.pid} {o.name}: {k.get('what', '')}")
